@@ -965,7 +965,7 @@ fn push_instr(
     let mut parts = code.splitn(2, |c: char| c == ' ' || c == '\t');
     let mn = parts.next().unwrap().to_ascii_uppercase();
     let operand = parts.next().unwrap_or("").trim().to_string();
-    if mn == "NOPS" {
+    if mn == "NOPS" || mn == ".NOPS" {
         // harness pseudo-op for inline assembly of a chosen size: `NOPS n` is n NOP instructions
         if let Ok(n) = operand.parse::<usize>() {
             for _k in 0..n.min(4096) {
